@@ -30,6 +30,7 @@ ASSUMPTIONS = [
     "shards run with PYTHONUTF8=1 so that path I/O of non-ASCII comments does not depend on the sandbox locale",
 ]
 TIMEOUT = {"quick": 900, "thorough": 6 * 3600}
+OPTIMIZED_SHARDS = ("rand03",)  # these shards also run under python -O
 NSH = 16
 
 
